@@ -60,8 +60,53 @@ def _top_index(e, stack):
     return None
 
 
+def _is_step_loop(loop):
+    return any(isinstance(st, ast.If) and isinstance(st.test, ast.UnaryOp) and isinstance(st.test.op, ast.Not) and isinstance(st.test.operand, ast.Name) and st.orelse
+               for st in loop.body)
+
+
+def _desugar_range_loops(func):
+    """`for i in range(a, b): body`  ->  `i = a; while i < b: body; i = i + 1`  for the sample loops of the merge kernels (in place, once).
+    The two spell the same loop when the body neither continues nor assigns i; everything downstream reads the while form."""
+    for parent in ast.walk(func):
+        for field in ('body', 'orelse', 'finalbody'):
+            lst = getattr(parent, field, None)
+            if not isinstance(lst, list):
+                continue
+            for k, st in enumerate(list(lst)):
+                if not (isinstance(st, ast.For) and isinstance(st.target, ast.Name) and not st.orelse and _is_step_loop(st)
+                        and isinstance(st.iter, ast.Call) and isinstance(st.iter.func, ast.Name) and st.iter.func.id == 'range' and not st.iter.keywords):
+                    continue
+                v = st.target.id
+                inner = [n for q in st.body for n in ast.walk(q)]
+                if any(isinstance(n, ast.Continue) for n in inner) or any(isinstance(n, ast.Name) and n.id == v and isinstance(n.ctx, ast.Store) for n in inner):
+                    continue
+                a = st.iter.args
+                if len(a) == 1:
+                    init, bound, step = ast.Constant(value=0), a[0], 1
+                elif len(a) == 2:
+                    init, bound, step = a[0], a[1], 1
+                elif len(a) == 3 and ast.unparse(a[2]).replace(' ', '') in ('1', '-1'):
+                    init, bound, step = a[0], a[1], int(ast.unparse(a[2]).replace(' ', ''))
+                else:
+                    continue
+                name = lambda ctx: ast.Name(id=v, ctx=ctx)
+                asg = ast.Assign(targets=[name(ast.Store())], value=init)
+                inc = ast.Assign(targets=[name(ast.Store())], value=ast.BinOp(left=name(ast.Load()), op=ast.Add() if step == 1 else ast.Sub(), right=ast.Constant(value=1)))
+                wl = ast.While(test=ast.Compare(left=name(ast.Load()), ops=[ast.Lt() if step == 1 else ast.Gt()], comparators=[bound]), body=list(st.body) + [inc], orelse=[])
+                for n_ in (asg, wl):
+                    ast.copy_location(n_, st)
+                ast.copy_location(inc, st.body[-1])
+                inc.lineno = getattr(st.body[-1], 'end_lineno', st.body[-1].lineno)
+                for n_ in (asg, wl, inc):
+                    ast.fix_missing_locations(n_)
+                idx = lst.index(st)
+                lst[idx:idx + 1] = [asg, wl]
+
+
 def find_step(func):
     """-> dict(loop=<sample loop>, stack, a, b, orient, first_push, pre=[stmts before the stack test], else_body)"""
+    _desugar_range_loops(func)
     for loop in ast.walk(func):
         if not isinstance(loop, (ast.While, ast.For)):
             continue
@@ -1572,9 +1617,25 @@ def check_patchup(ix, rep, f, opname, rule='R-SEGBUILD', slot_prefix=''):
     st, call = cands[0]
     # local bindings inside the enclosing block
     binds = {}
+    removed = False
     for n in ast.walk(st):
         if isinstance(n, ast.Assign) and isinstance(n.targets[0], ast.Name):
             binds[n.targets[0].id] = ast.unparse(n.value).replace(' ', '')
+            if binds[n.targets[0].id] in ('%s.pop()' % stack, '%s.pop(-1)' % stack) and n.lineno < call.lineno:
+                # v = out.pop(): reads the top and removes it
+                binds[n.targets[0].id] = '%s[-1]' % stack
+                removed = True
+        if isinstance(n, ast.Delete) and n.lineno < call.lineno and any(_top_index(t, stack) == 'end' for t in n.targets):
+            removed = True
+        if isinstance(n, ast.Expr) and isinstance(n.value, ast.Call) and n.lineno < call.lineno \
+                and ast.unparse(n.value).replace(' ', '') in ('%s.pop()' % stack, '%s.pop(-1)' % stack):
+            removed = True
+    if not removed:
+        rep.fail(rule, f.module.rel, f.qual, slot + ':replace', 'the last carried segment is not removed before its re-ended copy is pushed: both stay on the stack and the old provisional '
+                 'end keeps cutting the value off at T + end', call.lineno)
+    else:
+        rep.ok(rule, f.module.rel, f.qual, slot + ':replace', 'the carried segment is taken off the stack before its re-ended copy is pushed', call.lineno)
+
     def norm(e):
         t = ast.unparse(e).replace(' ', '')
         for k_, v_ in binds.items():
